@@ -491,6 +491,240 @@ fn strip_meta(s: &Schema) -> Schema {
     Schema::new(s.fields().iter().map(|x| f(x)).collect::<Vec<_>>())
 }
 
+
+static SHRINK_N: std::sync::atomic::AtomicU64 = std::sync::atomic::AtomicU64::new(0);
+
+/// Write `batches` as a fresh table (default parameters) and read it back through the same
+/// oracle. None = round trip fine (or the write was refused), Some(description) = it fails.
+async fn roundtrip_failure(batches: &[RecordBatch], ver: Ver, rng: &mut Rng) -> Option<String> {
+    roundtrip_failure_with(batches, ver, rng, None).await
+}
+
+async fn roundtrip_failure_with(
+    batches: &[RecordBatch],
+    ver: Ver,
+    rng: &mut Rng,
+    rows_per_file: Option<usize>,
+) -> Option<String> {
+    let schema = batches.first()?.schema();
+    let n = SHRINK_N.fetch_add(1, std::sync::atomic::Ordering::SeqCst);
+    let uri = format!("memory://c11-shrink-{n}");
+    let mut params = WriteParams {
+        data_storage_version: Some(ver.lance()),
+        ..Default::default()
+    };
+    if let Some(k) = rows_per_file {
+        params.max_rows_per_file = k;
+    }
+    let reader = RecordBatchIterator::new(batches.to_vec().into_iter().map(Ok), schema.clone());
+    let ds = guard(Dataset::write(reader, uri.as_str(), Some(params))).await.ok()?;
+    let model: Vec<(i64, Row)> = batches
+        .iter()
+        .flat_map(|b| batch_to_rows(b).into_iter().map(|r| (r[0].as_i64().unwrap(), r)))
+        .collect();
+    match guard(observe(&ds, rng)).await {
+        Err(e) => Some(format!("read-failed {} at {}", e.class(), err_site(&e.msg()))),
+        Ok(mut obs) => {
+            obs.dataset_schema = strip_meta(&obs.dataset_schema);
+            obs.scan_schema = obs.scan_schema.map(|s| Arc::new(strip_meta(&s)));
+            let (mut a, mut b) = (vec![], vec![]);
+            let f = oracle(&model, &strip_meta(&schema), &obs, ver, &mut a, &mut b);
+            f.first().map(|f| f.sig.clone())
+        }
+    }
+}
+
+/// Delta-debug a failing table: single culprit column, single batch, minimal rows.
+async fn shrink(batches: &[RecordBatch], ver: Ver, rng: &mut Rng) -> (Value, Option<String>) {
+    let mut batches: Vec<RecordBatch> = batches.iter().filter(|b| b.num_rows() > 0).cloned().collect();
+    if batches.is_empty() {
+        return (json!({"reproducible_as_single_create_with_default_params": false, "note": "empty table"}), None);
+    }
+    let mut full = roundtrip_failure(&batches, ver, rng).await;
+    let mut how = "all batches, default parameters".to_string();
+    if full.is_none() {
+        // the failure may need a particular page / file content: try each written batch alone,
+        // then the whole table split into small files (a failing file is then isolated by
+        // slicing the concatenated table the same way)
+        for (i, b) in batches.clone().iter().enumerate() {
+            if let Some(f) = roundtrip_failure(&[b.clone()], ver, rng).await {
+                full = Some(f);
+                how = format!("written batch #{i} alone");
+                batches = vec![b.clone()];
+                break;
+            }
+        }
+    }
+    if full.is_none() {
+        if let Ok(one) = arrow_select::concat::concat_batches(&batches[0].schema(), batches.iter()) {
+            'outer: for k in [1usize, 2, 3, 5, 7, 16] {
+                if roundtrip_failure_with(&[one.clone()], ver, rng, Some(k)).await.is_some() {
+                    let mut at = 0;
+                    while at < one.num_rows() {
+                        let piece = one.slice(at, k.min(one.num_rows() - at));
+                        if let Some(f) = roundtrip_failure(&[piece.clone()], ver, rng).await {
+                            full = Some(f);
+                            how = format!("rows {at}..{} of the table as one file", at + piece.num_rows());
+                            batches = vec![piece];
+                            break 'outer;
+                        }
+                        at += k;
+                    }
+                }
+            }
+        }
+    }
+    let Some(full) = full else {
+        return (json!({"reproducible_as_single_create_with_default_params": false}), None);
+    };
+    let batches = &batches[..];
+    let schema = batches[0].schema();
+    let mut cur: Vec<RecordBatch> = batches.to_vec();
+    let mut culprits = vec![];
+    for j in 1..schema.fields().len() {
+        let proj: Vec<RecordBatch> = batches.iter().map(|b| b.project(&[0, j]).unwrap()).collect();
+        if let Some(why) = roundtrip_failure(&proj, ver, rng).await {
+            culprits.push(json!({"column": schema.field(j).name(), "type": type_tag(schema.field(j).data_type()), "fails": why}));
+            if culprits.len() == 1 {
+                cur = proj;
+            }
+        }
+    }
+    let mut single = false;
+    if let Ok(one) = arrow_select::concat::concat_batches(&cur[0].schema(), cur.iter()) {
+        if roundtrip_failure(&[one.clone()], ver, rng).await.is_some() {
+            cur = vec![one];
+            single = true;
+        }
+    }
+    if single {
+        // ddmin over rows
+        let mut b = cur[0].clone();
+        let mut chunk = (b.num_rows() / 2).max(1);
+        while b.num_rows() > 1 {
+            let mut progressed = false;
+            let mut start = 0;
+            while start < b.num_rows() && b.num_rows() > 1 {
+                let keep: Vec<u32> = (0..b.num_rows() as u32)
+                    .filter(|i| (*i as usize) < start || (*i as usize) >= start + chunk)
+                    .collect();
+                if keep.is_empty() {
+                    start += chunk;
+                    continue;
+                }
+                let idx = arrow_array::UInt32Array::from(keep);
+                let cand = arrow_select::take::take_record_batch(&b, &idx).unwrap();
+                if roundtrip_failure(&[cand.clone()], ver, rng).await.is_some() {
+                    b = cand;
+                    progressed = true;
+                } else {
+                    start += chunk;
+                }
+            }
+            if chunk == 1 && !progressed {
+                break;
+            }
+            chunk = (chunk / 2).max(1);
+        }
+        cur = vec![b];
+    }
+    let why = roundtrip_failure(&cur, ver, rng).await;
+    let rows: Vec<String> = cur
+        .iter()
+        .flat_map(batch_to_rows)
+        .take(12)
+        .map(|r| render_row(&r))
+        .collect();
+    // narrow class of the minimal failing input: the data feature it exhibits, else its type
+    let feats = data_features(&cur);
+    let class = if !feats.is_empty() {
+        feats.join("+")
+    } else {
+        cur[0]
+            .schema()
+            .fields()
+            .iter()
+            .skip(1)
+            .map(|f| type_tag(f.data_type()))
+            .collect::<Vec<_>>()
+            .join("+")
+    };
+    (json!({
+        "reproducible_as_single_create_with_default_params": true,
+        "class_of_minimal_input": class,
+        "reproduced_with": how,
+        "failure_of_full_table": full,
+        "culprit_columns": culprits,
+        "shrunk_schema": format!("{:?}", cur[0].schema().fields().iter().map(|f| format!("{}:{}{}", f.name(), type_tag(f.data_type()), if f.is_nullable() {"?"} else {""})).collect::<Vec<_>>()),
+        "shrunk_batch_sizes": cur.iter().map(|b| b.num_rows()).collect::<Vec<_>>(),
+        "shrunk_rows": rows,
+        "shrunk_failure": why,
+    }), Some(class))
+}
+
+/// Oracle-computed features of the written Arrow data that known defect classes depend on
+/// (computed on the raw arrays, so that ranges hidden behind a null list are seen too).
+fn data_features(batches: &[RecordBatch]) -> Vec<&'static str> {
+    use arrow_array::cast::AsArray;
+    use arrow_array::Array;
+    #[derive(Default)]
+    struct F {
+        list_first_item_null: bool,
+        fsl_all_items_null: bool,
+    }
+    fn walk(a: &dyn Array, f: &mut F) {
+        match a.data_type() {
+            DataType::List(_) => {
+                let l = a.as_list::<i32>();
+                let o = l.value_offsets();
+                for i in 0..l.len() {
+                    if o[i + 1] > o[i] && l.values().is_null(o[i] as usize) {
+                        f.list_first_item_null = true;
+                    }
+                }
+                walk(l.values().as_ref(), f);
+            }
+            DataType::LargeList(_) => {
+                let l = a.as_list::<i64>();
+                let o = l.value_offsets();
+                for i in 0..l.len() {
+                    if o[i + 1] > o[i] && l.values().is_null(o[i] as usize) {
+                        f.list_first_item_null = true;
+                    }
+                }
+                walk(l.values().as_ref(), f);
+            }
+            DataType::FixedSizeList(_, _) => {
+                let l = a.as_fixed_size_list();
+                if l.values().len() > 0 && l.values().null_count() == l.values().len() {
+                    f.fsl_all_items_null = true;
+                }
+                walk(l.values().as_ref(), f);
+            }
+            DataType::Struct(_) => {
+                for c in a.as_struct().columns() {
+                    walk(c.as_ref(), f);
+                }
+            }
+            _ => {}
+        }
+    }
+    let mut f = F::default();
+    for b in batches {
+        for c in b.columns() {
+            walk(c.as_ref(), &mut f);
+        }
+    }
+    let mut out = vec![];
+    if f.list_first_item_null {
+        out.push("list-starting-with-null-item");
+    }
+    if f.fsl_all_items_null {
+        out.push("fsl-batch-with-all-items-null");
+    }
+    out
+}
+
 struct Ctx<'a> {
     report: &'a Report,
     types: &'a Histo,
@@ -566,17 +800,7 @@ async fn run_case(cx: &Ctx<'_>, seed: u64, idx: u64, selftest: bool) -> (u64, u6
     if ver == Ver::Legacy {
         // legacy: no null support, one dictionary per file (documented limits) -> keep the
         // generator inside what the format can represent
-        for _ in 0..8 {
-            if !spec.has_dictionary() {
-                break;
-            }
-            spec = XSpec::random(&mut rng, ncols, 1);
-        }
-        if spec.has_dictionary() {
-            spec = XSpec::from_colty(&mut rng, 1);
-            spec.cols[0].ty = DataType::Int32;
-        }
-        spec = spec.without_nulls();
+        spec = XSpec::legacy(&mut rng, ncols);
     }
     let world = World::memory();
     let place = if rng.chance(1, 6) {
@@ -595,6 +819,7 @@ async fn run_case(cx: &Ctx<'_>, seed: u64, idx: u64, selftest: bool) -> (u64, u6
     let v2_paths = rng.bool();
     let mut ids = IdAlloc::new((idx % 1000) as usize + 1);
     let mut model: Vec<(i64, Row)> = vec![];
+    let mut table_batches: Vec<RecordBatch> = vec![];
     let mut ds: Option<Dataset> = None;
     let nsteps = rng.urange(2, 6);
     let mut steps: Vec<StepLog> = vec![];
@@ -620,10 +845,7 @@ async fn run_case(cx: &Ctx<'_>, seed: u64, idx: u64, selftest: bool) -> (u64, u6
             let depth = rng.below(3) as u32;
             step_spec = XSpec::random(&mut rng, ncols, depth);
             if ver == Ver::Legacy {
-                if step_spec.has_dictionary() {
-                    step_spec = spec.clone();
-                }
-                step_spec = step_spec.without_nulls();
+                step_spec = XSpec::legacy(&mut rng, ncols);
             }
         }
         let n = *rng.pick_weighted(&[(1, 0usize), (2, 1), (3, 5), (4, 33), (4, 100), (2, 257)]);
@@ -673,6 +895,12 @@ async fn run_case(cx: &Ctx<'_>, seed: u64, idx: u64, selftest: bool) -> (u64, u6
                 if rng.chance(1, 4) {
                     params.data_storage_version = Some(ver.lance());
                 }
+            }
+        }
+        if std::env::var("C11_DUMP").is_ok() {
+            println!("--- step {step} {kind} {pdesc} ver={} schema={}", step_ver.name(), step_spec.describe());
+            for b in &batches {
+                println!("{}", arrow::util::pretty::pretty_format_batches(&[b.clone()]).unwrap());
             }
         }
         let reader = RecordBatchIterator::new(batches.clone().into_iter().map(Ok), schema.clone());
@@ -735,12 +963,7 @@ async fn run_case(cx: &Ctx<'_>, seed: u64, idx: u64, selftest: bool) -> (u64, u6
                         let ncols = rng.urange(1, 4);
                         spec = XSpec::from_colty(&mut rng, ncols);
                         if ver == Ver::Legacy {
-                            for c in spec.cols.iter_mut() {
-                                if matches!(c.ty, DataType::Dictionary(_, _)) {
-                                    c.ty = DataType::Utf8;
-                                }
-                            }
-                            spec = spec.without_nulls();
+                            spec = XSpec::legacy(&mut rng, ncols);
                         }
                     }
                     continue;
@@ -754,8 +977,12 @@ async fn run_case(cx: &Ctx<'_>, seed: u64, idx: u64, selftest: bool) -> (u64, u6
                     "overwrite" => {
                         model = new_rows;
                         spec = step_spec.clone();
+                        table_batches = batches.clone();
                     }
-                    _ => model.extend(new_rows),
+                    _ => {
+                        model.extend(new_rows);
+                        table_batches.extend(batches.clone());
+                    }
                 }
                 if kind == "create" || kind == "overwrite" {
                     for c in &spec.cols {
@@ -802,17 +1029,23 @@ async fn run_case(cx: &Ctx<'_>, seed: u64, idx: u64, selftest: bool) -> (u64, u6
                     .map(|c| kind_tag(&c.ty))
                     .collect::<Vec<_>>()
                     .join("+");
-                cx.report.violation(
-                    &format!(
-                        "read-failed-after-accepted-write-{}-{}-{}",
+                let (shrunk, class) = shrink(&table_batches, eff_ver, &mut rng).await;
+                let feats = data_features(&table_batches);
+                let sig = match class {
+                    Some(c) => format!("accepted-write-unreadable:{c}:{}", eff_ver.name()),
+                    None => format!(
+                        "accepted-write-unreadable:unshrunk:{}:{}:{}",
                         e.class(),
                         err_site(&e.msg()),
                         eff_ver.name()
                     ),
+                };
+                cx.report.violation(
+                    &sig,
                     "an accepted write cannot be read back (scan / count_rows error or panic)",
                     json!({"seed": seed, "case": idx, "step": step, "error": e.brief(), "schema": spec.describe(),
-                           "types": ty, "version": eff_ver.name(), "uri": uri,
-                           "steps": steps.iter().map(|s| format!("{s:?}")).collect::<Vec<_>>() }),
+                           "types": ty, "version": eff_ver.name(), "uri": uri, "data_features": feats,
+                           "steps": steps.iter().map(|s| format!("{s:?}")).collect::<Vec<_>>(), "shrunk": shrunk }),
                 );
                 break;
             }
@@ -845,13 +1078,22 @@ async fn run_case(cx: &Ctx<'_>, seed: u64, idx: u64, selftest: bool) -> (u64, u6
                     cx.norm_h.add(&n, 1);
                 }
                 if !findings.is_empty() {
+                    let (shrunk, class) = shrink(&table_batches, eff_ver, &mut rng).await;
                     for f in findings {
+                        // a wrong cell whose minimal reproduction exhibits a known data feature is
+                        // classified by that feature; everything else by the oracle's own signature
+                        let sig = match (&class, f.sig.contains("cell-differs")) {
+                            (Some(c), true) if c.contains("-") && !c.contains('<') => {
+                                format!("accepted-write-reads-wrong-cell:{c}:{}", eff_ver.name())
+                            }
+                            _ => format!("{}-{}", f.sig, eff_ver.name()),
+                        };
                         cx.report.violation(
-                            &format!("{}-{}", f.sig, eff_ver.name()),
+                            &sig,
                             &f.what,
                             json!({"seed": seed, "case": idx, "step": step, "schema": spec.describe(),
                                    "version": eff_ver.name(), "stable_row_ids": stable, "detail": f.detail,
-                                   "steps": steps.iter().map(|s| format!("{s:?}")).collect::<Vec<_>>() }),
+                                   "steps": steps.iter().map(|s| format!("{s:?}")).collect::<Vec<_>>(), "shrunk": shrunk }),
                         );
                     }
                     break;
